@@ -41,6 +41,14 @@ CHECKS = {
             "DESIGN.md 3/C11 and appendix B",
             "Generated byte strings (opcode-dense synthetic code per architecture, slices of real executables, random, lengths around 4096*k and tiny) x aligned start offsets incl. near 2^31/2^32 x delta distances: reader(writer(x)) == x, writer(x) == liblzma's filter output, reader(y) == liblzma's inverse filter output on arbitrary y. BCJ2Reader must reconstruct x from the four streams of the harness's reference encoder for generated convert decisions, stream chunkings and read sizes.",
             "liblzma filters are the reference; the BCJ2 reference encoder is harness code validated per case by a second naive decoder."),
+    "C04": ("exploration", "mutation-based property testing: enumerated bit flips / region edits / structure-aware field edits with CRC fix-up on generated base files, differential arbitration by liblzma",
+            "DESIGN.md 3/C04",
+            "Generated XZ (three check types, 1-3 blocks, crate-written or liblzma fixtures) and LZIP (1-3 members) base files; inside a case the mutants are enumerated: every single-bit flip (exhaustive for bases <= 600 bytes), byte substitutions, region delete/duplicate/insert/swap, edits of every structural field found by the harness's walker with and without recomputing the enclosing CRC32, non-format garbage. The reader must fail or return exactly the original; success with other bytes is a violation unless liblzma accepts the mutant with the same bytes.",
+            "liblzma arbitrates 'different valid file'; LZIPReaderMT on corrupt input belongs to C09."),
+    "C06": ("exploration", "structure-aware fuzzing with proptest generators: mutated valid streams (CRC fix-up) and hostile caller parameters, panic/abort/memory/time monitors",
+            "DESIGN.md 3/C06",
+            "Generated (decoder, caller parameters, mutated or random input) cases for LZMA (header and raw with any props byte / dictionary / declared size), LZMA2, XZ (multi on/off), LZIP, BCJ x8, Delta, BCJ2; every read call, including one after an error, must return; panics and shadow assertions are caught, aborts/stack overflows are detected through the shard journal and confirmed in isolation, peak heap is bounded by declared dictionary + 8 MiB + 4 x input, a case may take at most 20 s (hangs: watchdog + isolation re-run).",
+            "Single-threaded decoders only (MT readers: C09); the accounting allocator measures Rust allocations of the process."),
 }
 
 NOT_YET = {
